@@ -267,7 +267,10 @@ impl Rng { fn next(&mut self) -> u64 { self.0 ^= self.0 << 13; self.0 ^= self.0 
 
 fn gen_leaf(r: &mut Rng) -> P { match r.below(6) { 0 | 1 | 2 => P::V(r.below(NV)), 3 => P::N(1), 4 => P::N(2), _ => P::Nil } }
 fn gen_term(r: &mut Rng) -> P {
-    match r.below(8) {
+    match r.below(10) {
+        // nested lists: a variable or constant at depth two
+        8 => list(vec![list(vec![gen_leaf(r)])]),
+        9 => list(vec![list(vec![gen_leaf(r)]), gen_leaf(r)]),
         0 | 1 | 2 | 3 => gen_leaf(r),
         4 => list(vec![gen_leaf(r)]),
         5 | 6 => list(vec![gen_leaf(r), gen_leaf(r)]),
@@ -302,12 +305,16 @@ fn fixed() -> Vec<Vec<A>> {
         vec![A::Ne(v(0), n(1)), A::Ne(v(0), n(2)), A::Ne(v(1), v(0)), A::Or(vec![A::Eq(v(1), n(1))], vec![A::Eq(v(1), n(2))])],
         vec![A::Eq(v(0), list(vec![v(2), n(1)])), A::Ne(v(2), n(1)), A::Ne(v(1), v(2))],
         vec![A::Ne(P::Cons(Box::new(n(1)), Box::new(v(0))), list(vec![n(1), n(2)])), A::Eq(v(1), v(0))],
+        // variables below the first level of a list
+        vec![A::Ne(list(vec![list(vec![v(0)]), n(1)]), list(vec![list(vec![n(2)]), n(1)])), A::Eq(v(0), n(2))],
+        vec![A::Ne(list(vec![list(vec![v(0)])]), list(vec![list(vec![v(1)])])), A::Eq(v(0), v(1))],
+        vec![A::Ne(list(vec![list(vec![v(0)])]), list(vec![list(vec![v(2)])])), A::Eq(v(2), n(1)), A::Eq(v(0), n(1))],
     ]
 }
 
 pub fn search(tier: &str, seed: u64, only: Option<&str>) {
     let n = if tier == "thorough" { 6000 } else { 700 };
-    let mut rep = Report::new("diseq", &format!("{} generated pure tree programs (2-4 conjuncts of ==/!= over x0,x1 and a hidden variable, terms of depth <= 2 incl. improper list patterns, at most one 2-branch conde), each in EVERY permutation of its conjuncts, + fixed shapes; ground instances over a 12+ element sub-term-closed universe (seed {})", n, seed));
+    let mut rep = Report::new("diseq", &format!("{} generated pure tree programs (2-4 conjuncts of ==/!= over x0,x1 and a hidden variable, terms of depth <= 3 incl. nested lists and improper list patterns, at most one 2-branch conde), each in EVERY permutation of its conjuncts, + fixed shapes; ground instances over a 12+ element sub-term-closed universe (seed {})", n, seed));
     for p in fixed() { if only.map_or(true, |o| show(&p).contains(o)) { check_one(&mut rep, &p, true); } }
     // C09 probe: a program on which the FORM of the reported disequality is known to depend on hash iteration order
     // (known finding); run up to 40 times so that the dependence shows reliably
